@@ -101,6 +101,10 @@ class Evaluator:
                 pv = None
             if isinstance(pv, tuple) and pv[0] == "ptr":
                 return "%s[%d]" % (pv[1], pv[2])
+            if isinstance(pv, tuple) and pv[0] == "ref":
+                return pv[1]          # a pointer that was formed as &lvalue designates that lvalue
+            if isinstance(pv, str):
+                return pv             # heap mode: &lvalue is the lvalue's key
             return "*" + render(f, n["c"][0])
         if n["k"] == "MemberExpr" and n.get("base") is not None:
             bn = f.node(n["base"])
@@ -198,6 +202,8 @@ class Evaluator:
             key = self.lkey(n)
             if key in self.env:
                 return self.env[key]
+            if k == "MemberExpr" and (self.tinfo(n.get("ct")) or {}).get("k") == "array":
+                return ("ptr", key, 0)                  # a member array: its cells are env[name[i]]
             raise Unknown(key)
         if k == "UnaryOperator":
             op = n["op"]
@@ -236,6 +242,9 @@ class Evaluator:
                         return (bv[0], bv[1], bv[2] + self.ev(f.node(inner["idx"])))
                 if getattr(self, "heap_mode", False):
                     return self.lkey(n["c"][0])
+                if inner is not None and inner["k"] in ("DeclRefExpr", "MemberExpr") and (self.tinfo(inner.get("ct")) or {}).get("k") in ("ptr", "int", "bool", "enum") \
+                        and not (inner["k"] == "DeclRefExpr" and inner.get("dk") in ("Function", "CXXMethod")):
+                    return ("ref", self.lkey(inner))      # address of a scalar/pointer variable or field
                 if inner is not None and (inner["k"] in ("CallExpr", "CXXMemberCallExpr", "CXXOperatorCallExpr") or
                                           (inner["k"] == "DeclRefExpr" and (self.tinfo(inner.get("ct")) or {}).get("k") in ("record", "ref", "other"))):
                     # the address of an object designated by a reference (call result, reference parameter) or of a
@@ -289,8 +298,24 @@ class Evaluator:
                 return v
             return self._bin(op, self.ev(l), self.ev(r), n.get("ct"))
         if k in ("ConditionalOperator",):
-            c = self.ev(f.node(n["cond"]))
-            return self.ev(f.node(n["then"] if c else n["else"]))
+            # clang evaluates the condition and the chosen arm in blocks of their own before the block that holds the
+            # whole expression: take their values from there instead of folding them (and their calls) a second time
+            def cached(x):
+                cache = self.__dict__.get("_cache") or {}
+                while x is not None:
+                    if x["id"] in cache and not isinstance(cache[x["id"]], Unknown):
+                        return True, cache[x["id"]]
+                    if x["k"] in TRANSPARENT and len(x.get("c", [])) == 1:
+                        x = x["c"][0]
+                        continue
+                    break
+                return False, None
+            hit, c = cached(f.node(n["cond"]))
+            if not hit:
+                c = self.ev(f.node(n["cond"]))
+            arm = f.node(n["then"] if c else n["else"])
+            hit, v = cached(arm)
+            return v if hit else self.ev(arm)
         if k in ("CallExpr", "CXXMemberCallExpr", "CXXOperatorCallExpr"):
             nm = self.prog.callee_name(f, n)
             if nm in self.calls:
@@ -299,7 +324,12 @@ class Evaluator:
                 if ob_ is not None and ob_["k"] != "CXXThisExpr" and getattr(self, "pass_object", False):
                     try:
                         # pass_object == "key": the designator of the object (table_[3]) rather than its value
-                        args.append(self.lkey(f.node(n["obj"])) if self.pass_object == "key" else self.ev(f.node(n["obj"])))
+                        on__ = f.node(n["obj"])
+                        if self.pass_object == "key" and (on__.get("ct") or "").rstrip().endswith("*"):
+                            pv__ = self.as_ptr(self.ev(on__))      # p->m(): the designator of *p
+                            args.append("%s[%d]" % (pv__[1], pv__[2]) if isinstance(pv__, tuple) and pv__[0] == "ptr" else ("@%d" % pv__ if isinstance(pv__, int) else pv__))
+                        else:
+                            args.append(self.lkey(on__) if self.pass_object == "key" else self.ev(on__))
                     except Unknown:
                         args.append(None)
                 keys = []
@@ -343,7 +373,14 @@ class Evaluator:
                 g = self.prog.functions[n["callee"]["mn"]]
                 if getattr(self, "_depth", 0) > 30:
                     raise Unknown("inlining depth exceeded in %s (unbounded recursion)" % nm)
-                args = [self.ev(a) for a in f.args(n)]
+                args = []
+                for a in f.args(n):
+                    try:
+                        args.append(self.ev(a))
+                    except Thrown:
+                        raise
+                    except Unknown:
+                        args.append(None)       # an argument the model has no value for: the parameter stays unbound
                 pnames = {q["name"] for q in g.params}
                 glocals = set(pnames)
                 for gn in g.walk():
@@ -378,7 +415,7 @@ class Evaluator:
                         for k_, v in self.env.items():
                             if k_.startswith(prefix) and root(k_[len(prefix):]) in fields:
                                 senv[k_[len(prefix):]] = v
-                senv.update({q["name"]: self.wrap(v, q["ct"]) if isinstance(v, int) else v for q, v in zip(g.params, args)})
+                senv.update({q["name"]: self.wrap(v, q["ct"]) if isinstance(v, int) else v for q, v in zip(g.params, args) if v is not None})
                 sub = Evaluator(self.prog, g, env=senv, calls=self.calls)
                 sub.inline = inl
                 sub._depth = getattr(self, "_depth", 0) + 1
@@ -460,6 +497,7 @@ class Evaluator:
                     raise
                 except Unknown:
                     vals_.append(None)
+            self.trace.append(("construct " + (n.get("ct") or "?").replace("const ", ""), vals_, n))
             if len(vals_) == 1 and isinstance(vals_[0], tuple) and vals_[0][0] == "str":
                 return vals_[0]
             raise Unknown(k)
